@@ -19,7 +19,7 @@ fn main() {
     let mode = args.get(1).map(|s| s.as_str()).unwrap_or("codec").to_string();
 
     // Panics are observations, not crashes: silence the default hook.
-    panic::set_hook(Box::new(|_| {}));
+    if std::env::var("VERIF_PANIC_MSG").is_err() { panic::set_hook(Box::new(|_| {})); }
 
     let stdin = std::io::stdin();
     let input: Box<dyn BufRead> = match args.get(2) {
